@@ -15,7 +15,7 @@ Extraction "Extract/model.ml"
   server_new process_events grease responder_new responder_reset responder_add send_responses
   wellformed verify_response
   signer_from_seed run_signer messages run_verifier
-  pc_new pc_run pc_total pc_total_bytes agg_run cs_get rep_receive
+  pc_new pc_run pc_total pc_total_bytes agg_run cs_get rep_receive q_run
   parse_blob decrypt_seed encrypt_seed
   effective is_valid_config
   make_request client_handle client_run exit_zero.
